@@ -35,6 +35,9 @@ pub struct GenCfg {
 	pub hostile_docs: bool,
 	/// comment lines with backslashes (no control characters)
 	pub backslash_docs: bool,
+	/// names holding an unpaired surrogate (stand-in characters of `conv::js`): legal for the name types, impossible in any
+	/// text format - only for checks that build their inputs in memory
+	pub lone_surrogates: bool,
 	pub docs: bool,
 	/// allow nested classes whose outer class is not in the set
 	pub outer_absent: bool,
@@ -63,6 +66,7 @@ impl Default for GenCfg {
 			injective: false,
 			hostile_docs: false,
 			backslash_docs: false,
+			lone_surrogates: false,
 			docs: true,
 			outer_absent: true,
 			param_src_names: true,
@@ -90,6 +94,7 @@ pub const PARAM_PLACEHOLDER: &[&str] = &["p_0", "p_1", "p_22"];
 pub const PACKAGES: &[&str] = &["", "", "a/", "net/minecraft/", "net/minecraft/unmapped/", "com/x/y/", "b/c/", "日/", "java/lang/", "java/", "javax/x/", "net/minecraftx/"];
 pub const EXTERNAL_CLASSES: &[&str] = &["java/lang/Object", "java/lang/String", "ext/Unmapped", "L", "I", "a/L$I", "ext/Outer$Inner", "V"];
 pub const PRIMS: &[&str] = &["I", "J", "Z", "B", "C", "S", "F", "D"];
+pub const SURROGATE_IDENT: &[&str] = &["x\u{E000}", "\u{E001}y", "a\u{E000}b\u{E001}"];
 pub const DOC_LINES: &[&str] = &[
 	"hello", "a comment", "", " leading space", "trailing ", "# hash", "with  two spaces", "ünï cödé", "x", "@param a thing", "<p>html</p>", "COMMENT inside",
 	"  ", "a # b",
@@ -200,12 +205,14 @@ fn pick_ident(cfg: &GenCfg, sel: u16, placeholder: u8, placeholders: &[&str]) ->
 	if pct(placeholder, 25) {
 		return placeholders[idx(sel, placeholders.len())].to_string();
 	}
-	let n = SAFE_IDENT.len() + if cfg.enigma_safe { 0 } else { HOSTILE_IDENT.len() };
+	let n = SAFE_IDENT.len() + if cfg.enigma_safe { 0 } else { HOSTILE_IDENT.len() } + if cfg.lone_surrogates { SURROGATE_IDENT.len() } else { 0 };
 	let i = idx(sel, n);
 	if i < SAFE_IDENT.len() {
 		SAFE_IDENT[i].to_string()
-	} else {
+	} else if !cfg.enigma_safe && i < SAFE_IDENT.len() + HOSTILE_IDENT.len() {
 		HOSTILE_IDENT[i - SAFE_IDENT.len()].to_string()
+	} else {
+		SURROGATE_IDENT[(i - SAFE_IDENT.len()) % SURROGATE_IDENT.len()].to_string()
 	}
 }
 
